@@ -2669,6 +2669,11 @@ fn normalize_query_for_search<'a>(
     }
 
     let norm_sq = crate::simd::sum_squares_f32(query);
+    if !norm_sq.is_finite() {
+        // An overflowing norm would scale every lane to zero; the cold tier then rejects the
+        // "normalized" query and its circuit breaker counts a client error as a tier failure.
+        anyhow::bail!("embedding norm is not finite; cannot normalize");
+    }
     if norm_sq <= f32::EPSILON {
         anyhow::bail!("embedding norm is zero; cannot normalize");
     }
